@@ -463,7 +463,7 @@ NOTES = ("Every check is a set of Kani proof harnesses over the real functions o
 
 NOT_APPLICABLE = {
     "C06": "history independence: the regex cache hazard is heap-address reuse (CBMC's allocator never reuses an address), (de)serialisation is rmp-serde (6 symbolic bytes: 11 GB, no result), and even the one clause that is pure bit logic — Blocker::new vs add_filter file a single rule of symbolic mask under the same lists, in container mode — did not leave symbolic execution in 30 min (eight NetworkFilterList::new calls over vectors of symbolic length)",
-    "C09": "the quantified variable is the SipHash seed / hashbrown iteration order: a symbolic seed makes every hash symbolic (2-entry map: no result in 25 min); cross-process runs are not a symbolic execution",
+    "C09": "the quantified variable is the SipHash seed / hashbrown iteration order: a symbolic seed makes every hash symbolic (2-entry map: no result in 25 min); cross-process runs are not a symbolic execution; the one separable mechanism (insert_dup keeps a bucket sorted by id) ran out of memory at 8 GB for two symbolic ids (Vec::insert of Arc elements at a symbolic slot)",
     "C13": "redirect selection is inlined in Blocker::check_parameterised behind check_all; in container mode (Vec-backed containers, per-rule matcher abstracted, resource store stubbed to the identity on the name) a redirect list of two rules ran out of memory at 45 GB — same obstacle as C15 (a result vector of symbolic length holding symbolic pointers, then string comparison / priority parsing through them); the permission gate predicate is covered under C18",
     "C14": "apply_removeparam needs a populated NetworkFilterList (HashMap) and builds its result with format!/join; probe >30 min without result",
     "C15": "get_csp_directives: even in container mode (Vec-backed map/set, per-rule matcher abstracted to a free boolean) a csp list of two rules runs out of memory at 40 GB — check_all returns a vector of symbolic length whose elements are symbolic pointers, and the merge compares directive strings through them (HashSet<&str> insert/difference + String pushes)",
